@@ -18,9 +18,9 @@ def Agrees (s : PS) (m : CL) : Prop :=
 
 /-- **`doFreeNode(node)` is `CL.freeNode`** for every state in which the node is not its own
     neighbour (true of every well-formed list: `WF.noSelf`). -/
-theorem bridge_doFreeNode (l : CL) (n : Nat)
+theorem bridge_doFreeNode (fuel : Nat) (l : CL) (n : Nat)
     (hn : (l.heap n).next ≠ some n) (hp : (l.heap n).prev ≠ some n) :
-    Agrees (exec doFreeNode (ofCL l (some n) none)) (l.freeNode n) := by
+    Agrees (exec fuel doFreeNode (ofCL l (some n) none)) (l.freeNode n) := by
   unfold Agrees doFreeNode CL.freeNode ofCL
   rcases hx : (l.heap n).next with _ | x <;> rcases hq : (l.heap n).prev with _ | p
   · by_cases hh : l.head = some n <;> by_cases ht : l.tail = some n <;>
@@ -46,9 +46,9 @@ def allocated (l : CL) (id : Nat) (cb : Cb) (c : Nat) : CL :=
 
 /-- **`doAppend(node)` is `CL.linkBack`** for every state whose `tail` is set when `head` is (and is
     not the new node). -/
-theorem bridge_doAppend (l : CL) (id : Nat) (cb : Cb) (c : Nat)
+theorem bridge_doAppend (fuel : Nat) (l : CL) (id : Nat) (cb : Cb) (c : Nat)
     (ht : l.head.isSome → ∃ t, l.tail = some t ∧ t ≠ id) :
-    Agrees (exec doAppend (ofCL (allocated l id cb c) (some id) none)) (l.linkBack id cb c) := by
+    Agrees (exec fuel doAppend (ofCL (allocated l id cb c) (some id) none)) (l.linkBack id cb c) := by
   unfold Agrees doAppend CL.linkBack ofCL allocated
   rcases hh : l.head with _ | hd
   · simp [exec, evalP, evalC, getFld, setFld, hh, upd_get]
@@ -60,8 +60,8 @@ theorem bridge_doAppend (l : CL) (id : Nat) (cb : Cb) (c : Nat)
 
 /-- **`doInsert(node, beforeNode)` is `CL.linkBefore`** for every state (the new node is not the
     `before` node). -/
-theorem bridge_doInsert (l : CL) (id : Nat) (cb : Cb) (c : Nat) (b : Nat) (hb : b ≠ id) :
-    Agrees (exec doInsert (ofCL (allocated l id cb c) (some id) (some b))) (l.linkBefore id cb c b) := by
+theorem bridge_doInsert (fuel : Nat) (l : CL) (id : Nat) (cb : Cb) (c : Nat) (b : Nat) (hb : b ≠ id) :
+    Agrees (exec fuel doInsert (ofCL (allocated l id cb c) (some id) (some b))) (l.linkBefore id cb c b) := by
   unfold Agrees doInsert CL.linkBefore ofCL allocated
   have hb' : id ≠ b := Ne.symm hb
   rcases hq : (l.heap b).prev with _ | p <;> rcases hhd : l.head with _ | hd
@@ -83,6 +83,31 @@ theorem bridge_doInsert (l : CL) (id : Nat) (cb : Cb) (c : Nat) (b : Nat) (hb : 
     · have hdb' : b ≠ hd := Ne.symm hdb
       simp [exec, evalP, evalC, getFld, setFld, hq, hhd, upd_get, hb, hb', hdb, hdb']
       grind
+
+/-- the reset loop `while(node) { node->counter = 1; node = node->next; }` is `setOnes` -/
+theorem iter_setOnes (F : Nat) : ∀ (fuel : Nat) (h : Heap) (o hd tl v1 : Option Nat),
+    let s := iter (exec F (.seq (.setCounter (.var 0) 1) (.assign (.var 0) (.fld (.var 0) .next))))
+      (fun s => (evalP s (.var 0)).1.isSome) fuel ⟨h, hd, tl, o, v1, false⟩
+    s.heap = setOnes h fuel o ∧ s.head = hd ∧ s.tail = tl ∧ s.ub = false := by
+  intro fuel
+  induction fuel with
+  | zero => intro h o hd tl v1; simp [iter, setOnes]
+  | succ f ih =>
+    intro h o hd tl v1
+    cases o with
+    | none => simp [iter, setOnes, evalP]
+    | some n =>
+      have := ih (upd h n { h n with counter := 1 }) (h n).next hd tl v1
+      simpa [iter, setOnes, evalP, exec, getFld, upd_get] using this
+
+/-- **the wrap branch of `getNextCounter` (source) is `setOnes` (Model)**: for every list state and
+    every walk bound, the reset loop leaves exactly the heap `setOnes l.heap fuel l.head`, and `head`,
+    `tail` untouched, without dereferencing null. -/
+theorem bridge_wrapReset (fuel : Nat) (l : CL) :
+    let s := exec fuel wrapReset (ofCL l none none)
+    s.heap = setOnes l.heap fuel l.head ∧ s.head = l.head ∧ s.tail = l.tail ∧ s.ub = false := by
+  have := iter_setOnes fuel fuel l.heap l.head l.head l.tail none
+  simpa [wrapReset, exec, ofCL, evalP] using this
 
 /-- the regenerated traversal test is the Model's `guard` -/
 theorem bridge_guard (nc cap : Nat) : Gen.Cl.guard nc cap = Evp.guard nc cap := rfl
